@@ -191,6 +191,10 @@ impl ServerState {
                     TaskMessage::CompilationContext(ctx) => {
                         #[cfg(fuellabs_sway_verif)]
                         crate::verif::point_version("W:got_request", ctx.version);
+                        // A retrigger signal only concerns a compilation that is already running.
+                        // One that was raised before this compilation started is stale and must not
+                        // cancel it, otherwise the newest request would be dropped.
+                        retrigger_compilation.store(false, Ordering::SeqCst);
                         let uri = &ctx.uri;
                         let path = uri.to_file_path().unwrap();
                         let mut engines_clone = ctx.engines.read().clone();
